@@ -2306,11 +2306,46 @@ def desugar_enumerate_idioms(index):
                     return ast.fix_missing_locations(ast.copy_location(new, node))
             return node
 
+    def index_loops(fn):
+        """`for i in range(len(S)):` whose first statement is `x = S[i]` (S a plain name or attribute chain that the loop does not
+        rebind, `x` and `i` not assigned again in the body) is `for i, x in enumerate(S):`."""
+        k = 0
+        for loop in [n for n in ast.walk(fn) if isinstance(n, ast.For)]:
+            it = loop.iter
+            if not (isinstance(loop.target, ast.Name) and isinstance(it, ast.Call) and isinstance(it.func, ast.Name) and it.func.id == "range" and
+                    len(it.args) == 1 and not it.keywords and isinstance(it.args[0], ast.Call) and isinstance(it.args[0].func, ast.Name) and
+                    it.args[0].func.id == "len" and len(it.args[0].args) == 1 and isinstance(it.args[0].args[0], (ast.Name, ast.Attribute)) and
+                    len(loop.body) >= 2 and not loop.orelse):
+                continue
+            seq, i = it.args[0].args[0], loop.target.id
+            st = loop.body[0]
+            if not (isinstance(st, ast.Assign) and len(st.targets) == 1 and isinstance(st.targets[0], (ast.Name, ast.Tuple)) and
+                    isinstance(st.value, ast.Subscript) and ast.dump(st.value.value) == ast.dump(seq) and
+                    isinstance(st.value.slice, ast.Name) and st.value.slice.id == i):
+                continue
+            bound = {n.id for t_ in [st.targets[0]] for n in ast.walk(t_) if isinstance(n, ast.Name)} | {i}
+            root = seq
+            while isinstance(root, ast.Attribute):
+                root = root.value
+            rest_stores = {n.id for s_ in loop.body[1:] for n in ast.walk(s_) if isinstance(n, ast.Name) and isinstance(n.ctx, (ast.Store, ast.Del))}
+            if rest_stores & (bound | ({root.id} if isinstance(root, ast.Name) else set())):
+                continue
+            if any(isinstance(n, ast.Attribute) and isinstance(n.ctx, ast.Store) and ast.dump(n) == ast.dump(seq).replace("Load()", "Store()")
+                   for s_ in loop.body for n in ast.walk(s_)):
+                continue
+            loop.target = ast.Tuple(elts=[ast.Name(id=i, ctx=ast.Store()), st.targets[0]], ctx=ast.Store())
+            loop.iter = ast.Call(func=ast.Name(id="enumerate", ctx=ast.Load()), args=[seq], keywords=[])
+            del loop.body[0]
+            k += 1
+        if k:
+            ast.fix_missing_locations(fn)
+        return k
     for f in index.all_functions():
         t = T()
         t.visit(f.node)
-        if t.n:
-            done[f.site] = t.n
+        k = index_loops(f.node)
+        if t.n or k:
+            done[f.site] = t.n + k
     return done
 
 
